@@ -155,7 +155,8 @@ def run(rep, tier, seed):
         if got != r and len(rep.broken) < 5:
             rep.broken.append('correspondence C10: table %r text %r model %r implementation %r' % (T, text, r, got))
     # already-parsed arguments built by hand or combined from several origins: the same key may carry both
-    # exception flags, a WITH pair may be made of any two symbols
+    # exception flags, a WITH pair may be made of any two symbols, a key may differ from a table key in letter case only
+    # (an expression parsed by another Licensing): such a key is not in the table
     TT = [[], [('mit', [], False), ('cp', [], True)], [('a', [], False), ('gpl', ['gnu gpl'], False)]]
     hand = []
     for i in range(2000 if tier == 'thorough' else 300):
@@ -163,7 +164,7 @@ def run(rep, tier, seed):
         if i % 3 == 0:
             tree = gen.gen_tree(rng, depth=rng.randint(1, 2), maxar=4, atoms=gen.clash_atoms())
         else:
-            tree = gen.gen_tree(rng, depth=rng.randint(1, 3), maxar=4, keys=['mit', 'cp', 'a', 'gpl', 'x'], collide=True)
+            tree = gen.gen_tree(rng, depth=rng.randint(1, 3), maxar=4, keys=['mit', 'cp', 'a', 'gpl', 'x', 'MIT', 'Gpl', 'A', 'CP'], collide=True)
         hand.append((T, tree))
     hres = run_model([(9, [enc_table(T), tree]) for T, tree in hand])
     Ls = {repr(T): make_licensing(T) for T in TT}
